@@ -99,6 +99,26 @@ def find(p, want_h, pred=None, a_list=None, n_pred=None, torsion=None):
                     return (p, a, b, G[0], G[1], n, want_h)
     raise SystemExit('no curve for p=%d h=%d' % (p, want_h))
 
+def ts_ok(p):
+    """bn_mod_sqrt (Tonelli-Shanks branch, p = 1 mod 8) looks for a quadratic non-residue by XOR-ing the operand with
+    p >> 1, p >> 2, ... and gives up after bitlen(operand) attempts.  With 160..521 bit operands that never happens; with
+    8..16 bit operands it does for some residues (e.g. p = 241, 257, 65521).  The tiny p = 1 (mod 8) fields used here are
+    chosen so that the search succeeds for EVERY quadratic residue; otherwise the checks would measure that artefact."""
+    qr = set(y * y % p for y in range(1, p))
+    for a in qr:
+        if a < 2:
+            continue
+        b, tm, bits = a, p, a.bit_length()
+        while True:
+            tm >>= 1
+            b ^= tm
+            if (b % p) != 0 and (b % p) not in qr:
+                break
+            bits -= 1
+            if bits == 0:
+                return False
+    return True
+
 def has_x0(p, a, b, n, pts):          # a point with x == 0 exists (r = 0 reachable in the subgroup when h == 1)
     return any(P[0] == 0 for P in pts)
 
@@ -122,18 +142,19 @@ CURVES = [
     ('s127',  8, 0, find(127, 1, None, n_pred=lambda n: n < 127)),
     ('s199',  8, 0, find(199, 1, has_x0)),
     ('s229a0', 8, 0, find(229, 1, None, a_list=[0])),                       # p = 5 (mod 8)
-    ('s241m3', 8, 1, find(241, 1, None, a_list=[241 - 3])),                 # p = 1 (mod 16), a = -3
+    ('s113m3', 8, 1, find(113, 1, None, a_list=[113 - 3])),                 # p = 1 (mod 16): Tonelli-Shanks; a = -3
     ('s251',  8, 0, find(251, 1, None, n_pred=lambda n: n > 256)),         # n needs 9 bits: one digit more than p
     # --- one byte fields with cofactor
     ('c211h2', 8, 0, find(211, 2)),
     ('c223h4n', 8, 0, find(223, 4, torsion=3)),                            # 2-torsion Z2 x Z2 (three points with y == 0)
-    ('c233h4c', 8, 0, find(233, 4, torsion=1)),                            # cyclic 4-torsion
+    ('c239h4c', 8, 0, find(239, 4, torsion=1)),                            # cyclic 4-torsion
     # --- two byte fields
-    ('w257',  16, 0, find(257, 1)),                                        # p = 1 (mod 256)
+    ('w401',  16, 0, find(401, 1, None, n_pred=lambda n: n > 401)),        # p = 1 (mod 16): Tonelli-Shanks
     ('w263m3', 16, 1, find(263, 1, None, a_list=[263 - 3])),               # p = 3 (mod 4)
     ('w269h2', 16, 0, find(269, 2)),                                       # p = 5 (mod 8), cofactor 2
     ('w1021', 16, 0, find(1021, 1)),
-    ('w65521', 16, 0, find(65521, 1)),                                     # largest prime below 2^16, p = 1 (mod 16)
+    ('w65519', 16, 0, find(65519, 1, None, n_pred=lambda n: n > 65536)),   # n needs 17 bits (like secp160r1: one byte more than the field)
+    ('w63313', 16, 0, find(63313, 1)),                                     # largest p = 1 (mod 8) below 2^16 that passes ts_ok
     ('w65519h4', 16, 0, find(65519, 4)),
 ]
 
@@ -143,6 +164,7 @@ def main():
     out.append(' * name, declared field bits m, EC_CURVE_FLAG_*, p, a, b, Gx, Gy, n (prime order of G), h (cofactor).')
     out.append(' * Every entry is re-verified by brute force in tc_build() at check time. */')
     for name, m, flags, (p, a, b, gx, gy, n, h) in CURVES:
+        assert p % 8 != 1 or ts_ok(p), name
         out.append('\t{ "%s", %d, %d, %d, %d, %d, %d, %d, %d, %d },' % (name, m, flags, p, a, b, gx, gy, n, h))
     sys.stdout.write('\n'.join(out) + '\n')
 
